@@ -69,12 +69,29 @@ class KillWalker:
         self.arms_oids = set(mab.fields["arms"].refs)
         self.parent_of = {}
         self._loop_kills = set()
+        self.regions = {"bandit"}
 
     # ------------------------------------------------------------------ public
     def run(self, call_ev):
         self.heap0 = self.eng.heap
         K = self.call(call_ev, set())
         return K
+
+    def _is_arms(self, it):
+        """The iterable is the bandit's arm list (or a deep copy of it inside a worker-local policy)."""
+        for r in it.refs:
+            cur, hops = r, 0
+            while hops < 10:
+                if cur in self.arms_oids:
+                    return True
+                ob = self.eng.heap.objs.get(cur) or self.eng.persistent.get(cur)
+                if ob is None or ob.copy_of is None or ob.copy_of[1] != ():
+                    break
+                cur, hops = ob.copy_of[0], hops + 1
+        return False
+
+    def wanted_objs(self):
+        return {l[0] for l in self.wanted}
 
     def path(self, ev):
         return " -> ".join(f.qualname for f, _ in ev.stack)
@@ -225,7 +242,7 @@ class KillWalker:
         it = lev.a["iter"]
         if it is None:
             return False
-        if it.refs & self.arms_oids:
+        if self._is_arms(it):
             return True
         src = it
         if it.extra is not None and it.extra[0] == "keysof":
@@ -272,7 +289,7 @@ class KillWalker:
         it = lev.a["iter"]
         if it is None:
             return False
-        if it.refs & self.arms_oids:
+        if self._is_arms(it):
             return True
         src = it
         if it.extra is not None and it.extra[0] in ("keysof",):
@@ -308,7 +325,7 @@ class KillWalker:
         skind = ev.a["skind"]
         value = ev.a["value"]
         vlocs = dep_locations(eng, value.deps) if value is not None else set()
-        bandit_targets = [t for t in ev.a["targets"] if t.region == "bandit"]
+        bandit_targets = [t for t in ev.a["targets"] if t.region in self.regions]
         # reads of un-reset state flowing into the model that fit builds
         if bandit_targets:
             for loc in vlocs:
@@ -318,7 +335,8 @@ class KillWalker:
             if value is not None:
                 for r in value.refs:
                     ob = eng.obj(r)
-                    if ob.region == "fresh" and ob.copy_of is not None and ob.copy_of[1] == ():
+                    if ob.region == "fresh" and ob.copy_of is not None and ob.copy_of[1] == () and \
+                            r not in self.wanted_objs():
                         src = ob.copy_of[0]
                         for loc in self.wanted:
                             if loc[0] == src and loc not in K and loc not in self.early:
